@@ -129,7 +129,11 @@ func Specials() []string {
 		"#!a\n#!b\n<?php ", "#!a\n#!b\n", "#!a\n\n#!b\n<?php ", " #!a\n<?php "}
 	bodies := []string{"$a;", "echo 1;", "if ($a): ?>\nx\n<?php endif;", "foo() ?>", "function f() { ?>x<?php }", "$a; /*c*/ ?>", "$a ; ?>", "$a;\n?>",
 		"$a;//c\n?>", "$a;//c ?>", "$a //c ?> x <?php ;", "$a #c\r;", "/** d */ function f() {}", "/**/ $a;", "switch ($a) { case 1: ?>x<?php break; }",
-		"$a ?>\r\nx<?php ;", "$a ?>\rx<?php ;", "$a; ?>\r\n<b>\r\n<?php ;", "if ($a): ?>\r\nx\r\n<?php endif;", "$a ?>\n\nx<?php ;", "$a ?>\r\n\r\nx<?php ;"}
+		"$a ?>\r\nx<?php ;", "$a ?>\rx<?php ;", "$a; ?>\r\n<b>\r\n<?php ;", "if ($a): ?>\r\nx\r\n<?php endif;", "$a ?>\n\nx<?php ;", "$a ?>\r\n\r\nx<?php ;",
+		// inline HTML inside statement lists of every kind, with 3, 5 and 6 statements (lists with spare capacity)
+		"function f() { ?>x<?php $b; }", "{ $a; ?>x<?php $b; }", "if ($a) { ?>x<?php $b; $c; $d; }", "while ($a) { $b; $c; ?>x<?php }", "class A { function m() { ?>x<?php return 1; } }",
+		"try { ?>x<?php $b; } catch (E $e) { ?>y<?php $c; } finally { ?>z<?php $d; }", "$f = function() { ?>x<?php $b; };", "switch ($a) { case 1: ?>x<?php $b; break; default: $c; ?>y<?php }",
+		"foreach ($a as $b): ?>x<?php $c; endforeach;", "if ($a): ?>x<?php $b; else: ?>y<?php $c; endif;", "for (;;) { $a; ?>x<?php $b; ?>y<?php $c; }", "do { ?>x<?php $b; } while ($a);"}
 	tails := []string{"", "?>", "?>\n", "?>\r\n", "?>\r", "?>x", "?>\n\n", "?>\n<?php ;", " __halt_compiler();", " __halt_compiler();x<?php y \x00\xff",
 		" __halt_compiler ( ) ;x", " __halt_compiler()?>x", " __HALT_COMPILER();\n<?php 1", "\n", " ", "//c", "#c", "/*c*/", "// c ?>", "/** d */"}
 	var out []string
